@@ -116,6 +116,20 @@ thread_local! {
     static HSM_FALLIBLE: Cell<usize> = const { Cell::new(0) };
     static HSM_FAIL_AT: Cell<Option<usize>> = const { Cell::new(None) };
     static HSM_FIRED: Cell<usize> = const { Cell::new(0) };
+    static HSM_HANDLE: Cell<bool> = const { Cell::new(false) };
+}
+
+/// Handle mode: the serialized form of the external key is an opaque handle
+/// (not the raw scalar), as with a real key service.
+pub fn hsm_set_handle_mode(on: bool) {
+    HSM_HANDLE.with(|h| h.set(on));
+}
+fn handle_xform(b: &mut [u8]) {
+    if HSM_HANDLE.with(|h| h.get()) {
+        for (i, x) in b.iter_mut().enumerate() {
+            *x ^= 0x5a ^ (i as u8).wrapping_mul(29);
+        }
+    }
 }
 
 pub fn hsm_reset(fail_at: Option<usize>) {
@@ -189,12 +203,16 @@ impl<KG: KeGroup> SecretKey<KG> for SimHsm<KG> {
 
     fn serialize(&self) -> GenericArray<u8, Self::Len> {
         let _ = hsm_note(HsmCall::Serialize);
-        self.0.serialize()
+        let mut b = self.0.serialize();
+        handle_xform(&mut b);
+        b
     }
 
     fn deserialize(input: &[u8]) -> Result<Self, InternalError<Self::Error>> {
         hsm_note(HsmCall::Deserialize).map_err(InternalError::Custom)?;
-        <PrivateKey<KG> as SecretKey<KG>>::deserialize(input)
+        let mut raw = input.to_vec();
+        handle_xform(&mut raw);
+        <PrivateKey<KG> as SecretKey<KG>>::deserialize(&raw)
             .map(SimHsm)
             .map_err(|e| InternalError::into_custom(e))
     }
@@ -203,7 +221,9 @@ impl<KG: KeGroup> SecretKey<KG> for SimHsm<KG> {
 impl<KG: KeGroup> serde::Serialize for SimHsm<KG> {
     fn serialize<S: serde::Serializer>(&self, s: S) -> Result<S::Ok, S::Error> {
         let _ = hsm_note(HsmCall::Serialize);
-        serde::Serialize::serialize(&self.0, s)
+        let mut b = <PrivateKey<KG> as SecretKey<KG>>::serialize(&self.0);
+        handle_xform(&mut b);
+        serde::Serialize::serialize(&b, s)
     }
 }
 
@@ -211,6 +231,10 @@ impl<'de, KG: KeGroup> serde::Deserialize<'de> for SimHsm<KG> {
     fn deserialize<D: serde::Deserializer<'de>>(d: D) -> Result<Self, D::Error> {
         use serde::de::Error;
         hsm_note(HsmCall::Deserialize).map_err(|e| D::Error::custom(format!("{e}")))?;
-        <PrivateKey<KG> as serde::Deserialize>::deserialize(d).map(SimHsm)
+        let mut b = <GenericArray<u8, KG::SkLen> as serde::Deserialize>::deserialize(d)?;
+        handle_xform(&mut b);
+        <PrivateKey<KG> as SecretKey<KG>>::deserialize(&b)
+            .map(SimHsm)
+            .map_err(|e| D::Error::custom(format!("{e:?}")))
     }
 }
